@@ -112,6 +112,9 @@ def run(tier: str) -> int:
     tdocs = [("t:pair_late", "Some text here that goes on and on for a while, yes it does. And more {% field %}{% /field %} after and the rest of it is here too.\n\n"
                              "- The first sentence of this list item is fairly ordinary prose text. The second has <!-- f --><!-- /f --> in it and continues a bit more.\n\n"
                              "> A quoted paragraph that is long enough that it has to wrap and then has a {# n #}{# /n #} pair and {{ v }}{{ /v }} too, at the end of it.\n")]
+    tdocs += [("ws:crlf", "# T\r\n\r\ntext here\r\n\r\n"), ("ws:crlf_lead", "\r\n\r\n# T\r\n\r\ntext\r\n"), ("ws:ff", "\x0c\n# T\n\ntext\n\x0c\n"),
+              ("ws:nbsp", "\xa0\n\ntext para\n\n\xa0\n"), ("ws:lead", "\n\n  \ntext\n\n\n"), ("ws:tab", "\t\n- a\n- b\n \t \n"), ("ws:vt", "\x0b\ntext\n\x0b\n"),
+              ("ws:ideographic", "\u3000\ntext\n\u2028\n")]
     for name, text in corpus.RICH + corpus.FINDING_DOCS + [("q:" + n, t) for n, t in typo.QUOTE_DOCS] + [("e:" + n, t) for n, t in c09.DOT_DOCS] + hdocs + tdocs:
         for o in cube:
             jobs.append(("R", name, text, o))
